@@ -1,9 +1,16 @@
 """C18 - fractional values keep their numeric meaning.
 
 Decided by Barril/Props/C18.lean over the executable model Barril/Model/Frac.lean (Fraction, FractionValue,
-FractionScalar conversion written after the Python function by function, in exact rational arithmetic).
+FractionScalar conversion written after the Python function by function, in exact rational arithmetic):
+Fraction(a,b) = a/b exactly for decimals with <= 7 places and within SMALL/|b| always; + - * / % neg abs and the six
+comparisons are the rationals'; float/order/==/copy of FractionValue; parse(str(fv)) = fv for printable values;
+CreateFromFloat(d) = d for decimals in [1e-4, 1e16); ConvertFractionValue = Scalar conversion of float(value) up to
+SMALL/denominator (exact for short-decimal increments, affine units included); order and validity = Scalar's.
 Tie: every modelled function is run on the real code and on the model (`drv_frac`) on seeded inputs; the
-oracle below states C18 on the real API alone."""
+oracle below states C18 on the real API alone.
+
+Three input classes on which the unchanged code violates C18 are reproduced by the model (and proved as
+`*_counterexample` theorems): see KNOWN_CLASSES / FINDING_CASES."""
 import copy
 import math
 from fractions import Fraction as Q
@@ -33,6 +40,12 @@ ASSUMPTIONS = [
     "Fraction(a): non-terminating decimals are normalised by float rounding in the code and by 60 exact decimal "
     "shifts in the model; such results are compared by value (K*eps*M), short decimals exactly",
     "regular expressions, str.strip, locale (C locale) are modelled for ASCII input",
+    "FractionScalar is modelled for simple (non-derived) quantities built with CreateWithQuantity(ObtainQuantity(unit, "
+    "category), value); constructor argument juggling is C19's, memo tables C05's/C15's",
+    "value limits (CheckValidity) are exercised on a private 5-unit database with 8 categories registered identically "
+    "on both sides (no shipped category has limits)",
+    "not modelled: Fraction.__pow__/__setitem__/__getitem__/__iter__, GetLocalizedString/Fraction (locale formats), "
+    "__repr__, infinite or NaN numbers inside a FractionValue",
 ]
 
 OPS_CMP = ("eq", "ne", "lt", "le", "gt", "ge")
@@ -398,6 +411,8 @@ def s_parse(rng, n):
                             "1.25.5/4", "1,2,5/4", "12.5.5/4", "+5 +3/4", "--5", "5 - 3/4", "5\x0b3/4", "5\x0c3/4", "1e5", "1e5 1/2", "inf", "nan",
                             "5 3/4x", "x5 3/4", "5 3/4 ", "5  3  /  4", "00012 0003/0004", "1.50 2.50/5", ".5", "5.", "5. 1/2", "1/2/3"])
         yield c_parse(s)
+        if rng.random() < 0.25:
+            yield dict(op="fv_match", text=s, _t=dict())
 
 
 def s_cff(rng, n):
@@ -617,7 +632,7 @@ def show(c):
     out = dict(op=c["op"])
     if "f" in c:
         out["f"] = c["f"]
-    if c["op"] == "fv_parse":
+    if c["op"] in ("fv_parse", "fv_match"):
         out["text"] = c["text"]
     for k, v in t.items():
         out[k] = _show_val(v)
@@ -714,6 +729,9 @@ def _run(c, ctx):
         return dict(ok=str(_fv(t["v"])))
     if op == "fv_parse":
         return dict(ok=_fv_out(FractionValue.CreateFromString(c["text"])))
+    if op == "fv_match":
+        FractionValue.MatchFractionPart(c["text"])
+        return dict(ok=None)
     if op == "fv_strparse":
         return dict(ok=_fv_out(FractionValue.CreateFromString(str(_fv(t["v"])))))
     if op == "cff":
@@ -857,6 +875,8 @@ def _agree_inner(c, io, mo, ctx):
         return "order differs: impl %s model %s" % (a, b)
     if op == "fv_str":
         return None if a == b else "str differs: impl %r model %r" % (a, b)
+    if op == "fv_match":
+        return None
     if op in ("fv_parse", "fv_strparse"):
         ni, nm = qparse(a["n"]), qparse(b["n"])
         if ni != exact(float(nm)):
@@ -1289,8 +1309,12 @@ def shrink(case, failure, ctx):
     return case, failure
 
 
+def _entry_class(entry):
+    return (entry.get("matcher") or {}).get("class") or entry.get("class")
+
+
 def matches_known(entry, case, failure):
-    return bool(entry.get("class")) and failure.get("known_class") == entry.get("class")
+    return bool(_entry_class(entry)) and failure.get("known_class") == _entry_class(entry)
 
 
 FINDING_CASES = {
@@ -1301,7 +1325,7 @@ FINDING_CASES = {
 
 
 def replay_finding(entry, ctx):
-    mk = FINDING_CASES.get(entry.get("class"))
+    mk = FINDING_CASES.get(_entry_class(entry))
     if mk is None:
         return None
     return oracle(mk(), ctx, report_known=True)
